@@ -1293,3 +1293,31 @@ def rule_scan_ranges(ctx, rid, reason):
     for F in (I, Cl):
         for fr in Q.calls_in(F, FREE):
             rule_full_range(ctx, rid, F, fr, "free/keep loop of %s" % F.q.split("::")[-1], r"retired_array::first$", r"retired_array::last$", reason)
+
+
+def rule_list_push(ctx, rid, F, head_field, next_field, reason):
+    """lock-free push onto a singly linked list: on every path where the CAS on <head_field> wins, the pushed node's <next_field> was last set to
+    exactly the value that CAS expected (so it is re-set after every failed attempt); nodes already in the list are never lost"""
+    from sa.pathsim import PathSim
+    from sa.q import cond_atoms, sv_field_path, noepoch
+    n = 0
+    for p in PathSim(F, bound=4000).run():
+        ev = p.events
+        for i, e in enumerate(ev):
+            if e.kind != "call" or not (atomic_op(e) or "").startswith("compare_exchange") or e.obj is None or sv_field_path(e.obj)[-1:] != [head_field]:
+                continue
+            won = None
+            for atom, tv, bev in cond_atoms(p):
+                if atom == e.val:
+                    won = tv
+            if won is not True or len(e.args) < 2:
+                continue
+            n += 1
+            exp, new = e.args[0], e.args[1]
+            st = [x for x in ev[:i] if x.kind == "store" and sv_field_path(x.obj)[-1:] == [next_field] and noepoch(x.obj)[1:2] == (noepoch(new),) or
+                  (x.kind == "store" and sv_field_path(x.obj)[-1:] == [next_field] and strip_sv(x.obj) == new)]
+            ctx.check(bool(st) and st[-1].val == exp, rid, F,
+                      "the pushed record's %s link holds the list head that the winning CAS expected" % next_field, e.node,
+                      detail="last %s value %r, CAS expected %r: with a stale link the records pushed in between are dropped from the list. %s"
+                      % (next_field, st[-1].val if st else None, exp, reason), sig="push-link:%s" % head_field)
+    return n
